@@ -153,7 +153,9 @@ def cases(tier, seed):
                     for final in (True, False):
                         for replace in (True, False):
                             yield {"style": name, "seq": s, "prefix": prefix, "ending": ending, "final": final, "replace": replace}
-    for name in all_styles("thorough"):
+    # styles whose file types include languages that are run as '#!' scripts (Lua and Haskell under 'haskell'; Lisp, Scheme, Clojure, Emacs
+    # Lisp under 'lisp'; osascript); for markup styles the pinned suite says that '#!' is nothing special
+    for name in ("python", "julia", "cpp-multi", "cppsingle", "tex", "haskell", "lisp", "applescript"):
         for s in ("", "C", "H", "CH", "HC", "BC", "O", "OC"):
             for ending in ("\n", "\r\n"):
                 for replace in (True, False):
